@@ -118,6 +118,14 @@ def check(R, prefix, F, spec):
     what = spec.get("what", spec["id"])
     try:
         act = actual(body, spec)
+        # the same decisions with named constants read as their values: a literal of the frozen table that became a named constant of the same
+        # value (or the other way round) is the same decision
+        prev = K.CONST_AS_VALUE
+        K.CONST_AS_VALUE = True
+        try:
+            act_v = actual(body, spec)
+        finally:
+            K.CONST_AS_VALUE = prev
     except K.AnchorLost as e:
         R.bad(key + "/anchor-lost", "%s: %s" % (what, e), [body.where()])
         return
@@ -133,17 +141,19 @@ def check(R, prefix, F, spec):
                 hit = [h for h, _ in have_pre(act, name) if h[0] in w[0].split("|") and h[1:] == w[1:]]
                 want.append(hit[0] if hit else (w[0].split("|")[0],) + w[1:])
         have = act[name]
+        have_v = act_v.get(name, [])
+        twin = {i: have_v[i][0] for i in range(len(have))} if len(have_v) == len(have) else {}
         R.sites += len(have)
         k2 = key if name == "return" else key + "/" + name
         ok = True
         for w in want:
-            if any(h == w for h, _ in have):
+            if any(h == w for h, _ in have) or any(v == w for v in twin.values()):
                 continue
             near = [(h, s) for h, s in have if h[1] == w[1] and h[2] == w[2]] or [(h, s) for h, s in have if h[0] == w[0] and (h[1] == w[1] or h[2] == w[2])]
             R.bad(k2, "%s: the decision `%s` is no longer made%s" % (what, show(w), "; closest now: `%s`" % show(near[0][0]) if near else ""), [near[0][1].where()] if near else [body.where()])
             ok = False
-        for h, s in have:
-            if h not in want:
+        for i, (h, s) in enumerate(have):
+            if h not in want and twin.get(i) not in want:
                 R.bad(k2, "%s: a decision outside the frozen table: `%s`" % (what, show(h)), [s.where()])
                 ok = False
         if ok:
